@@ -78,12 +78,19 @@ func (g *valueGen) collLen(path string) int {
 	if g.depth >= 2 {
 		max = 2
 	}
+	// now and then a long collection (capacity / index slips only show beyond a few elements)
+	if g.depth <= 1 && g.pick(40, path, "long") == 0 {
+		return 9 + g.pick(40, path, "longlen")
+	}
 	return 1 + g.pick(max, path, "len")
 }
 
 var mapKeys = []string{"a", "b", "", "key with space", "K", "ünï", "z9", "a.b"}
 
 func (g *valueGen) mapKey(path string, i int) string {
+	if i >= len(mapKeys) {
+		return fmt.Sprintf("key%03d", i)
+	}
 	return mapKeys[(g.pick(len(mapKeys), path, "keybase")+i)%len(mapKeys)]
 }
 
